@@ -531,7 +531,10 @@ def discharge_path(res, fn, params, opts, stats):
     # ---- translator validation: symbolic values at the witness vs the real float run
     if conc is not None:
         if conc['status'] == 'done' and not conc['missing']:
-            ok, detail = validate_translation(cx, h, conc, wit)
+            try:
+                ok, detail = validate_translation(cx, h, conc, wit)
+            except (Inconclusive, PathAbort, Exception) as e:
+                ok, detail = None, f"validation not possible: {e}"
             if ok is True:
                 stats['paths_validated'] += 1
             elif ok is False:
